@@ -11,13 +11,12 @@ steps that mirror how the text is put together:
 
 * `toks F i` — the RAW tokens of `i.write(f, _)`: every `"\n"` the writers emit is one `newLine` token, every
   `INDENT` (four spaces) or `"\t"` one `indentation` token.  Raw token lists are what the writers
-  concatenate (and what `CircuitDefinition::write` splits at `'\n'` to re-indent nested instructions).
+  concatenate.
 * `collapseNL` — the lexer turns a RUN of `'\n'` characters into ONE `NewLine` token (`recognize_newlines`,
   lexer/mod.rs); the writers produce such runs where a text that itself ends in `"\n"` (DEFGATE, DEFCIRCUIT,
   DEFCAL MEASURE) is followed by `Program::write`'s own `writeln!`.  `printProgramTokens` is
   `collapseNL` of the concatenated raw tokens.  (Adjacent raw `newLine` tokens are always adjacent `'\n'`
-  characters: no writer emits blanks between two newlines — an empty re-indented line is `INDENT` then `"\n"`,
-  i.e. there is an `indentation` token in between.)
+  characters: no writer emits blanks between two newlines.)
 
 Rust ↔ Lean (quil-rs/src/instruction/*.rs, program/mod.rs):
   qubit.rs:40 Qubit                      qubitToks          control_flow.rs:73 Target          targetToks
@@ -27,7 +26,7 @@ Rust ↔ Lean (quil-rs/src/instruction/*.rs, program/mod.rs):
   gate.rs:628 Gate                       gateToks           gate.rs:962 GateSpecification      specToks
   gate.rs:1137 GateSignature             inside `.gateDefinition`
   calibration.rs:69/214/268/339          `.calibrationDefinition`, `.measureCalibrationDefinition`
-  circuit.rs:43 CircuitDefinition        `.circuitDefinition` (re-indents every LINE of every nested instruction)
+  circuit.rs:43 CircuitDefinition        `.circuitDefinition` (INDENT, the instruction, newline — fix b8ed6d0)
   timing.rs:37 Delay (parenthesises an ambiguous duration)   extern_call.rs:1062 Call (the `0` before `-2.0i`)
   mod.rs:377 Instruction                 toks               program/mod.rs:1123 Program        printProgramTokens
 
@@ -281,28 +280,6 @@ def gateDefToks (F : NumFmt) (g : GateDefinition) : List Token :=
     (specQubitParams g.specification).map identTok ++
     .as :: gateTypeTok g.specification :: .colon :: .newLine :: specToks F g.specification)
 
-/-- `split('\n')` of a raw token list: the lines between `newLine` tokens (always at least one line) -/
-def splitLinesAux : List Token → List Token → List (List Token)
-  | acc, [] => [acc.reverse]
-  | acc, t :: ts => if t = .newLine then acc.reverse :: splitLinesAux [] ts else splitLinesAux (t :: acc) ts
-
-def splitLines (ts : List Token) : List (List Token) := splitLinesAux [] ts
-
-/-- a quoted string whose text is split at its own `'\n'` characters and re-indented: every newline INSIDE
-the string is followed by four more spaces -/
-def reindentChars : List Char → List Char
-  | [] => []
-  | c :: cs => if c = '\n' then '\n' :: ' ' :: ' ' :: ' ' :: ' ' :: reindentChars cs else c :: reindentChars cs
-
-def reindentTok : Token → Token
-  | .string s => .string (reindentChars s)
-  | t => t
-
-/-- `for line in lines.split('\n') { writeln!(writer, "{INDENT}{line}") }` (circuit.rs:69): the split is on
-the TEXT, so it also cuts through string literals that contain a newline -/
-def reindent (ts : List Token) : List Token :=
-  (splitLines (ts.map reindentTok)).flatMap fun line => .indentation :: (line ++ [.newLine])
-
 def measureNameToks : Option String → List Token
   | some n => [.bang, identTok n]
   | none => []
@@ -398,10 +375,11 @@ def mcalBodyToks (F : NumFmt) : List Instruction → List Token
   | [i] => .indentation :: toks F i
   | i :: j :: rest => .indentation :: (toks F i ++ .newLine :: mcalBodyToks F (j :: rest))
 
-/-- the re-indented lines of every nested instruction of a DEFCIRCUIT -/
+/-- `write!("{INDENT}"); instruction.write(..); writeln!()` for every instruction of a DEFCIRCUIT body
+(circuit.rs, since fix b8ed6d0: the instruction is indented once, its text is not split into lines) -/
 def circuitBodyToks (F : NumFmt) : List Instruction → List Token
   | [] => []
-  | i :: rest => reindent (toks F i) ++ circuitBodyToks F rest
+  | i :: rest => .indentation :: (toks F i ++ .newLine :: circuitBodyToks F rest)
 end
 
 mutual
